@@ -249,6 +249,80 @@ func c19(c *Ctx) {
 		}
 	}
 
+	// Z3c: collectTime hands back what it collected even when some peer failed (both callers only log the error and go on)
+	{
+		info := ct.Info()
+		g := c.Graph(ct)
+		var resObj types.Object
+		ast.Inspect(ct.Body(), func(n ast.Node) bool {
+			if as, ok := n.(*ast.AssignStmt); ok && len(as.Lhs) == 1 && len(as.Rhs) == 1 {
+				if call, ok := ast.Unparen(as.Rhs[0]).(*ast.CallExpr); ok && astx.Builtin(info, call) == "make" && resObj == nil {
+					if _, isSlice := info.TypeOf(call).Underlying().(*types.Slice); isSlice {
+						if id, ok := as.Lhs[0].(*ast.Ident); ok {
+							resObj = astx.Obj(info, id)
+						}
+					}
+				}
+			}
+			return true
+		})
+		callersIgnoreErr := true
+		for _, caller := range c.P.FuncsIn("timesafeguard") {
+			for _, call := range callsIn(caller, func(fn *types.Func, _ *ast.CallExpr) bool { return fn == ct.Obj }) {
+				cg := c.Graph(caller)
+				if c.errorEdgeFatal(caller, cg, call) {
+					callersIgnoreErr = false
+				}
+			}
+		}
+		for _, rv := range g.Returns() {
+			rs := rv.Node.(*ast.ReturnStmt)
+			if len(rs.Results) != 2 {
+				continue
+			}
+			id, ok := ast.Unparen(rs.Results[0]).(*ast.Ident)
+			okRes := ok && resObj != nil && astx.Obj(info, id) == resObj
+			r.Check(okRes || !callersIgnoreErr, "C19.Z3", ct.Name(), "returns the collected measurements", c.P.Pos(rs.Pos()), "first result is the results slice",
+				"collectTime drops the measurements it collected when one peer failed, while its callers only log the error and evaluate the returned slice: one unreachable peer makes every other (possibly skewed) peer invisible and the node joins unchecked")
+		}
+	}
+	// Z1b: the flag values are handed to the parameters they are named after
+	{
+		info := mainFn.Info()
+		for _, call := range astx.Calls(mainFn.Body(), false) {
+			fn := astx.Callee(info, call)
+			if fn == nil || fn.Pkg() == nil || fn.Pkg().Path() != pathTimesafe {
+				continue
+			}
+			sig := fn.Type().(*types.Signature)
+			for i, a := range call.Args {
+				if i >= sig.Params().Len() {
+					break
+				}
+				st, ok := ast.Unparen(a).(*ast.StarExpr)
+				if !ok {
+					continue
+				}
+				id, ok := ast.Unparen(st.X).(*ast.Ident)
+				if !ok {
+					continue
+				}
+				pn := sig.Params().At(i).Name()
+				// only judged when some parameter of the callee carries this flag's name
+				named := false
+				for j := 0; j < sig.Params().Len(); j++ {
+					if sig.Params().At(j).Name() == id.Name {
+						named = true
+					}
+				}
+				if named {
+					r.Check(pn == id.Name, "C19.Z1", mainFn.Name(), "flag -"+id.Name+" passed as parameter "+pn+" of "+fn.Name(), c.P.Pos(a.Pos()), "argument and parameter names agree",
+						"the value of -"+id.Name+" is passed where "+fn.Name()+" expects "+pn+" (two string arguments swapped): the node measures itself instead of the peer it joins")
+				}
+			}
+		}
+	}
+
 	// Z4
 	{
 		info := tis.Info()
